@@ -558,8 +558,11 @@ class Ctx:
             "wall_s": round(wall, 2),
             "violations": len(self.violations),
         }
-        (VERIF / "evidence").mkdir(exist_ok=True)
-        (VERIF / "evidence" / f"{self.pid}.json").write_text(json.dumps(jsonable(ev), indent=1))
+        # development runs (proofs skipped, or a scratch copy of the repository) never touch evidence/
+        dev = getattr(self, "dev_run", False) or os.environ.get("LYMPH_REPO", "/repo").rstrip("/") != "/repo"
+        evdir = VERIF / ".work" / "evidence-dev" if dev else VERIF / "evidence"
+        evdir.mkdir(parents=True, exist_ok=True)
+        (evdir / f"{self.pid}.json").write_text(json.dumps(jsonable(ev), indent=1))
         for line in self.known_hits:
             print(line)
         for v in self.violations:
